@@ -107,10 +107,12 @@ func errsInRange(src string, r presult) bool {
 }
 
 type harness struct {
-	env *Env
-	vm  *otto.Otto
-	fs  *file.FileSet
-	nfs int
+	env        *Env
+	vm         *otto.Otto
+	snapVM     *otto.Otto
+	snapScript *otto.Script
+	fs         *file.FileSet
+	nfs        int
 }
 
 // run a script with a watchdog (a wrongly evaluated partial program may loop)
@@ -141,23 +143,104 @@ func (h *harness) run(src string) (val string, errd bool) {
 
 const snapJS = `(function(g){ return Object.getOwnPropertyNames(g).sort().join() + "|" + typeof __se + typeof __v + typeof __f })(this)`
 
-// parse-before-evaluate: a rejected source leaves the runtime's global object alone
+// snapshot of the global object through a precompiled *Script, so that taking it does not go
+// through the string path of Run (a per-runtime "last source" memo would be replaced by it)
+func (h *harness) snap() string {
+	if h.snapVM != h.vm || h.snapScript == nil {
+		sc, err := h.vm.Compile("", snapJS)
+		if err != nil {
+			return "!snapshot does not compile: " + err.Error()
+		}
+		h.snapVM, h.snapScript = h.vm, sc
+	}
+	vm, sc := h.vm, h.snapScript
+	o := Guard(func() (otto.Value, error) { return vm.Run(sc) })
+	if o.Panic != nil {
+		return fmt.Sprintf("!panic %v", o.Panic)
+	}
+	if o.Err != nil {
+		return "!err " + o.Err.Error()
+	}
+	return o.Val.String()
+}
+
+func guardErr(f func() error) (msg string, pan interface{}) {
+	defer func() { pan = recover() }()
+	if err := f(); err != nil {
+		return err.Error(), nil
+	}
+	return "", nil
+}
+
+// parse-before-evaluate: a rejected source leaves the runtime's global object alone — also when it
+// is submitted again and again to the same runtime (Run three times in a row, once more after an
+// accepted source, Compile twice, eval twice, Function twice): same rejection and error position
+// each time, global object unchanged, no panic
 func (h *harness) runtimeFlags(src string) (runRejects, runClean, evalClean bool, note string) {
 	pre := "__se = 1; var __v = 2; function __f(){}\n" + src
-	before, _ := h.run(snapJS)
-	r, errd := h.run(pre)
-	after, _ := h.run(snapJS)
-	runRejects = errd && !strings.HasPrefix(r, "!panic") && r != "!timeout"
-	runClean = before == after && strings.HasSuffix(after, "|undefinedundefinedundefined")
-	ev, _ := h.run(`(function(){ try { eval(` + JSStr(Units(pre)) + `); return "noerr" } catch (e) { return (e instanceof SyntaxError || e instanceof ReferenceError) ? "ok" : "other " + e } })()`)
-	after2, _ := h.run(snapJS)
-	evalClean = (ev == "ok" && after2 == before) || !utf8.ValidString(src) // the string literal handed to eval replaces invalid bytes
-	if after2 != before || !strings.HasSuffix(after2, "|undefinedundefinedundefined") {
+	clean := func(s string) bool { return strings.HasSuffix(s, "|undefinedundefinedundefined") }
+	before := h.snap()
+	runRejects, runClean, evalClean = true, clean(before), true
+	var first string
+	why := ""
+	fail := func(flag *bool, msg string) {
+		*flag = false
+		if why == "" {
+			why = msg
+		}
+	}
+	for i := 0; i < 4; i++ {
+		if i == 3 { // once more after an accepted source
+			h.run("1 + 1")
+		}
+		r, errd := h.run(pre)
+		if !errd || strings.HasPrefix(r, "!panic") || r == "!timeout" {
+			fail(&runRejects, fmt.Sprintf("Run #%d -> %q", i+1, r))
+		}
+		if i == 0 {
+			first = r
+		} else if r != first {
+			fail(&runRejects, fmt.Sprintf("Run #%d -> %q but Run #1 -> %q", i+1, r, first))
+		}
+		if after := h.snap(); after != before {
+			fail(&runClean, fmt.Sprintf("global object after Run #%d: %q, before: %q", i+1, after, before))
+		}
+	}
+	vm := h.vm
+	for i := 0; i < 2; i++ {
+		msg, pan := guardErr(func() error { _, err := vm.Compile("", pre); return err })
+		if pan != nil || msg == "" {
+			fail(&runRejects, fmt.Sprintf("Compile #%d -> error %q panic %v", i+1, msg, pan))
+		}
+	}
+	if utf8.ValidString(src) { // the string literal handed to eval replaces invalid bytes
+		lit := JSStr(Units(pre))
+		for i := 0; i < 2; i++ {
+			ev, _ := h.run(`(function(){ try { eval(` + lit + `); return "noerr" } catch (e) { return (e instanceof SyntaxError || e instanceof ReferenceError) ? "ok" : "other " + e } })()`)
+			if ev != "ok" {
+				fail(&evalClean, fmt.Sprintf("eval #%d -> %q", i+1, ev))
+			}
+			if after := h.snap(); after != before {
+				fail(&evalClean, fmt.Sprintf("global object after eval #%d: %q", i+1, after))
+			}
+		}
+		fn := ""
+		for i := 0; i < 2; i++ { // as a function body the text may be legal (return): only consistency and no panic
+			r, _ := h.run(`(function(){ try { new Function(` + lit + `); return "compiled" } catch (e) { return "threw" } })()`)
+			if strings.HasPrefix(r, "!") || (i == 1 && r != fn) {
+				fail(&evalClean, fmt.Sprintf("new Function #%d -> %q (first %q)", i+1, r, fn))
+			}
+			fn = r
+			if after := h.snap(); after != before {
+				fail(&evalClean, fmt.Sprintf("global object after new Function #%d: %q", i+1, after))
+			}
+		}
+	}
+	if after := h.snap(); after != before || !clean(after) || why != "" {
 		h.vm = otto.New()
 	}
-	if !(runRejects && runClean && evalClean) {
-		note = fmt.Sprintf(" run=%q eval=%q globals %q -> %q -> %q", r, ev, before, after, after2)
-		h.vm = otto.New()
+	if why != "" {
+		note = " " + why
 	}
 	return
 }
@@ -437,6 +520,7 @@ func main() {
 	h.staticMatrix()
 	h.escapeStream()
 	h.noInStream()
+	h.lineTerminatorStream()
 	for env.Count() < env.N {
 		switch k := r.Intn(20); {
 		case k < 8: // generated program, verdict decided by the Coq model/spec
